@@ -137,6 +137,9 @@ func scC02Stress(w *World, a Args, rng *rand.Rand) error {
 		if a.Bool("allbig") {
 			kind = "big"
 		}
+		if a.Bool("allbigreq") { // equally long large requests back to back (frames of one size queueing up at the server)
+			kind = "bigreq"
+		}
 		wg.Add(1)
 		go func(i int, kind string, cancelIt bool) {
 			defer wg.Done()
@@ -152,7 +155,9 @@ func scC02Stress(w *World, a Args, rng *rand.Rand) error {
 					}
 				}()
 			}
-			if kind == "big" {
+			if kind == "bigreq" {
+				c.CallBigReq(ctx, i, a.Int("reqsize", 48000))
+			} else if kind == "big" {
 				sz := 5000 + rng.Intn(30000)
 				if a.Bool("allbig") {
 					sz = 200000 + rng.Intn(800000)
